@@ -4,6 +4,7 @@ CONSTANTS Clients = {"A", "B"}
           LockBroken = FALSE
           IgnoreSideHashFailure = FALSE
           MaxOps = 4
+          UnlockBeforeCleanup = FALSE
 INVARIANTS InstalledIsComplete NoViolation
 VIEW View
 CHECK_DEADLOCK FALSE
